@@ -9,6 +9,10 @@ from ..core import CTX, attempt, held, violated, undefined, same_array, short
 from .. import gen
 
 PROP = "C18"
+LEVEL_TEXT = 'Field-wise oracle with unique entry ids; alignment contract (all fields equally long, len agrees) on every result; index kinds incl. python bool lists, conversion to reordered narrower classes, Fortran-ordered 2-D fields, VarLenArray padding. Exploration.'
+LEVEL_NOTE = "trusts numpy 2.x, CPython (copy.copy, slice semantics, big ints) and the reference model in rtmon/props/c18.py; decides the executions it produces, nothing more"
+TECHNIQUE = 'runtime monitoring: reference-model oracle (same selector on each generating field) + field-alignment contract'
+DESIGN_REF = "DESIGN.md sections 0, 5 (C18), 7"
 RULE = ("case = (number and kinds of fields, common length, operation: construct (equal / unequal lengths) | len | index (int, slice, int list, "
         "bool array, bool list) | iter | concatenate | == | astype(narrower class, any field order) | VarLenArray concatenate); "
         "distinct = hash of the case; non-trivial = >= 2 fields and length >= 2")
